@@ -440,8 +440,20 @@ func (w *inotify) readEvents() {
 	}
 }
 
-func (w *inotify) handleEvent(inEvent *unix.InotifyEvent, buf *[65536]byte, offset uint32) (Event, bool) {
+func (w *inotify) handleEvent(inEvent *unix.InotifyEvent, buf *[65536]byte, offset uint32) (ev Event, ok bool) {
 	verifPoint("inotify.handle", int(offset))
+
+	// An error is sent only after the lock is released (this runs after the
+	// deferred Unlock() below): if nobody is reading from Errors the send
+	// blocks, and that must not block Add(), Remove(), WatchList(), and
+	// Close() as well.
+	var sendErr error
+	defer func() {
+		if !w.sendError(sendErr) {
+			ev, ok = Event{}, false
+		}
+	}()
+
 	w.mu.Lock()
 	defer w.mu.Unlock()
 
@@ -504,9 +516,7 @@ func (w *inotify) handleEvent(inEvent *unix.InotifyEvent, buf *[65536]byte, offs
 		// the renamed path was deleted before we got around to this event.
 		err := w.remove(watch.path)
 		if err != nil && !errors.Is(err, ErrNonExistentWatch) && !errors.Is(err, unix.EINVAL) {
-			if !w.sendError(err) {
-				return Event{}, false
-			}
+			sendErr = err
 		}
 	}
 
@@ -519,16 +529,13 @@ func (w *inotify) handleEvent(inEvent *unix.InotifyEvent, buf *[65536]byte, offs
 		}
 	}
 
-	ev := w.newEvent(name, inEvent.Mask, inEvent.Cookie)
+	ev = w.newEvent(name, inEvent.Mask, inEvent.Cookie)
 	// Need to update watch path for recurse.
 	if watch.recurse {
 		isDir := inEvent.Mask&unix.IN_ISDIR == unix.IN_ISDIR
 		/// New directory created: set up watch on it.
 		if isDir && ev.Has(Create) {
-			err := w.register(ev.Name, watch.flags, true)
-			if !w.sendError(err) {
-				return Event{}, false
-			}
+			sendErr = w.register(ev.Name, watch.flags, true)
 
 			// This was a directory rename, so we need to update all the
 			// children.
